@@ -139,3 +139,47 @@ Proof.
   exact (ordered_no_deadlock rk5 ts Hord Hd).
 Qed.
 
+(* ---------- coherence with the static checker ----------
+   A graph that has a validated schedule outside the wasm gate is rejected by the checker when no site is
+   listed: the search can never "find" a deadlock in a graph that [check g nl []] accepts. *)
+Lemma task_at_from_graph : forall g s t, task_at g s = Some t -> gate_free1 g s = true ->
+  from_graph [] g (rt_task t).
+Proof.
+  intros g s t H Hg; unfold task_at in H; unfold gate_free1 in Hg.
+  destruct (run_path g (st_root s) (st_path s)) as [st |] eqn:Hrun; [| discriminate].
+  apply run_path_reach in Hrun; unfold reach_st in Hrun.
+  destruct (p_es st) as [| e es] eqn:He; [discriminate |].
+  destruct e as [w m site | l | l | site cs]; try discriminate.
+  destruct (is_ranked w) eqn:Hrk; [| discriminate].
+  injection H as <-; cbn [rt_task].
+  intros w' k' Hw; cbn [waits] in Hw; injection Hw as <- <-.
+  split; [apply is_ranked_ranked; exact Hrk |].
+  exists (p_o st), (p_h st), m, site, es.
+  split; [exact Hrun |]. split; [apply in_known_nil |]. split.
+  - intros Hin. apply In_mem in Hin. rewrite Hin in Hg. discriminate.
+  - intros x Hx; cbn [holds] in Hx; apply filter_In in Hx; split; [apply is_ranked_ranked |]; tauto.
+Qed.
+
+Lemma all_tasks_from_graph : forall g sc rts, all_tasks g sc = Some rts -> gate_free g sc = true ->
+  Forall (from_graph [] g) (map rt_task rts).
+Proof.
+  intros g sc; induction sc as [| s r IH]; intros rts H Hg; cbn [all_tasks] in H.
+  - injection H as <-; constructor.
+  - destruct (task_at g s) as [t |] eqn:Ht; [| discriminate].
+    destruct (all_tasks g r) as [ts |] eqn:Hr; [| discriminate].
+    injection H as <-. cbn [gate_free forallb] in Hg. apply andb_true_iff in Hg; destruct Hg as [Hg1 Hg2].
+    cbn [map]; constructor; [apply (task_at_from_graph g s t Ht Hg1) | apply IH; [reflexivity | exact Hg2]].
+Qed.
+
+Theorem valid_sched_check_rejects : forall g sc ts, valid_sched g sc = Some ts -> gate_free g sc = true ->
+  forall nl, check g nl [] = false.
+Proof.
+  intros g sc ts H Hg nl. destruct (check g nl []) eqn:Hchk; [| reflexivity]. exfalso.
+  destruct (valid_sched_sound g sc ts H) as [_ Hd].
+  unfold valid_sched in H.
+  destruct (all_tasks g sc) as [rts |] eqn:Hall; [| discriminate].
+  destruct (cycle_b (map rt_task rts) && match rts with [] => false | t :: _ => chain_m rts t end && compatible rts);
+    [| discriminate].
+  injection H as <-.
+  exact (no_deadlock_from_check g nl [] Hchk _ (all_tasks_from_graph g sc rts Hall Hg) Hd).
+Qed.
